@@ -1034,6 +1034,65 @@ impl World {
 			"fees": self.val(fees), "res": r.res(), "retkey": ret})
 	}
 
+	/// owner::build_output: an output built for the caller with the next key of the active account
+	pub fn build_output(&mut self, w: &str, amount_units: u64) -> Value {
+		let amount = amount_units * self.unit;
+		let r = self.with(w, |wi, mask| {
+			owner::build_output(wi, mask, core::core::OutputFeatures::Plain, amount)
+		});
+		let key = match &r {
+			Outcome::Ok(b) => key_str(&b.key_id, &None),
+			_ => "".into(),
+		};
+		json!({"ev": "build_output", "w": w, "bkey": key, "res": r.res(), "detail": r.detail()})
+	}
+
+	/// owner::create_mwixnet_req for the record stored under `key` (named by its commitment, as the API wants it)
+	pub fn mwix_req(&mut self, w: &str, key: &str, lock: bool) -> Value {
+		let kid = parse_key(key);
+		let unit = self.unit;
+		let before = self.with(w, |wi, _| {
+			let parent = wi.parent_key_id();
+			Ok(wi.current_child_index(&parent).unwrap_or(0))
+		});
+		let r = self.with(w, |wi, mask| {
+			let outs: Vec<OutputData> = wi.iter().collect();
+			let target = outs
+				.iter()
+				.find(|o| Some(&o.key_id) == kid.as_ref())
+				.cloned()
+				.ok_or_else(|| libwallet::Error::GenericError("no such record".into()))?;
+			let commit = match &target.commit {
+				Some(c) => Commitment::from_vec(util::from_hex(c).unwrap()),
+				None => {
+					let k = wi.keychain(mask)?;
+					k.commit(target.value, &target.key_id, grin_keychain::SwitchCommitmentType::Regular)?
+				}
+			};
+			let secp = util::static_secp_instance();
+			let secp = secp.lock();
+			let sk = |b: u8| SecretKey::from_slice(&secp, &[b; 32]).unwrap();
+			let params = libwallet::mwixnet::MixnetReqCreationParams {
+				server_keys: vec![sk(1), sk(2)],
+				fee_per_hop: 25 * unit,
+			};
+			drop(secp);
+			owner::create_mwixnet_req(wi, mask, &params, &commit, lock, false).map(|_| ())
+		});
+		// the key handed to the swapped output: the active account's index before the call
+		let bkey = match (&r, &before) {
+			(_, Outcome::Ok(n)) => {
+				let act = self.with(w, |wi, _| Ok(wi.parent_key_id()));
+				match act {
+					Outcome::Ok(p) => format!("{}c{}", acct_str(&p), n),
+					_ => "".into(),
+				}
+			}
+			_ => "".into(),
+		};
+		json!({"ev": "mwix_req", "w": w, "key": key, "lock": lock, "bkey": bkey, "res": r.res(), "detail": r.detail()})
+	}
+
 	/// inject a divergence into the wallet's records (what a bug, a restore from an old
 	/// backup or an interrupted operation could leave): kind in
 	/// delete | spent | unspent | lock | stale
